@@ -4,12 +4,19 @@
 mod common;
 mod c01;
 mod c07;
+mod c08;
+mod fref;
 mod c09;
 mod c10;
 mod c11;
 mod c12;
 mod c13;
 mod c14;
+mod c16;
+mod c17;
+mod c02;
+mod closure;
+mod optable;
 mod pools;
 mod units;
 
@@ -19,13 +26,17 @@ use std::path::PathBuf;
 fn dispatch(id: &str, ctx: &mut Ctx) -> bool {
     match id {
         "C01" => c01::run(ctx),
+        "C02" => c02::run(ctx),
         "C07" => c07::run(ctx),
+        "C08" => c08::run(ctx),
         "C09" => c09::run(ctx),
         "C10" => c10::run(ctx),
         "C11" => c11::run(ctx),
         "C12" => c12::run(ctx),
         "C13" => c13::run(ctx),
         "C14" => c14::run(ctx),
+        "C16" => c16::run(ctx),
+        "C17" => c17::run(ctx),
         _ => return false,
     }
     true
